@@ -72,10 +72,11 @@ def marker_name_scenarios(world: SqlWorld, stmts, loop_holder=None):
     out = []
     uids = ["V1", "V2", "H"]
     names = {"V1": "x", "V2": "y", "H": "x"}
-    for perm in itertools.permutations(uids):
+    for perm, lperm in itertools.product(itertools.permutations(uids), (("V1", "V2", "H"), ("H", "V2", "V1"))):
         for order in ("asc", "desc"):
             world.p.it.set_order = order
-            labels = {u: world.label(names[u]) for u in uids}
+            # the column map may list hidden columns before visible ones as well (leaf columns first, then computed ones)
+            labels = {u: world.label(names[u]) for u in lperm}
             compiled = []
 
             def compile_query(table, query, sqa_expr, _c=compiled):
@@ -95,8 +96,8 @@ def marker_name_scenarios(world: SqlWorld, stmts, loop_holder=None):
             got = {u: (after[u].attrs["name"] if u in after and isinstance(after[u], Obj) else None) for u in uids}
             inner = [lb.attrs["name"] for lb in compiled[0]] if compiled else []
             ok = got["V1"] == "x" and got["V2"] == "y" and got["H"] not in (None, "x", "y") and len(set(inner)) == len(inner) == 3
-            out.append((f"needed_cols order {perm}, set order {order}", ok,
-                        f"needed-column order {list(perm)}: the subquery selects {inner}; after it the visible columns are labelled "
+            out.append((f"needed_cols order {perm}, column map order {lperm}, set order {order}", ok,
+                        f"needed-column order {list(perm)}, column map order {list(lperm)}: the subquery selects {inner}; after it the visible columns are labelled "
                         f"{got['V1']!r}, {got['V2']!r} (documented: 'x', 'y'), the hidden one {got['H']!r}"))  # fmt: skip
             q = res["query"]
             if isinstance(q, Obj) and q.attrs.get("select") != ["V1", "V2"]:
@@ -141,12 +142,21 @@ def union_scenarios(world: SqlWorld, branch):
         ("same order", ["a", "b", "c"], ["a", "b", "c"], []),
         ("right side permuted", ["a", "b", "c"], ["c", "a", "b"], []),
         ("right side reversed, hidden column in scope", ["a", "b"], ["b", "a"], ["h"]),
+        # the right columns were renamed (b -> a, a -> b earlier): their stored Col objects still carry the creation-time
+        # names, and a hidden column's creation-time name equals a visible name
+        ("right side reversed and renamed (stale creation-time names)", ["a", "b"], ["b", "a"], ["stale"]),
     ]
     for (label, lnames, rnames, rhidden), needed, distinct in itertools.product(scen, ("all", "first"), (False, True)):
         if True:
             luid = {n: f"L.{n}" for n in lnames}
             ruid = {n: f"R.{n}" for n in rnames + rhidden}
-            rcols = {u: p.new("tree.col_expr", "Col", name=n, _ast=None, _uuid=u, _dtype=None, _ftype=None) for n, u in ruid.items()}
+            stale = "stale" in rhidden
+            # creation-time names: normally the current ones; in the stale scenario the two visible columns have swapped names
+            # and the hidden column is called like the first visible one
+            created = {n: n for n in ruid}
+            if stale:
+                created = {rnames[0]: rnames[1], rnames[1]: rnames[0], "stale": rnames[0]}
+            rcols = {u: p.new("tree.col_expr", "Col", name=created[n], _ast=None, _uuid=u, _dtype=None, _ftype=None) for n, u in ruid.items()}
             right_node = p.new("tree.verbs", "Ungroup", child=None, name="r")
             compiled = []
 
@@ -154,7 +164,8 @@ def union_scenarios(world: SqlWorld, branch):
                 if node is _r:
                     order = list(_rn)
                 elif isinstance(node, Obj) and node.cls.name == "Select" and node.attrs.get("child") is _r:
-                    order = [c.attrs["name"] for c in node.attrs["select"]]
+                    cur = {u: n for n, u in _ru.items()}
+                    order = [cur[c.attrs["_uuid"]] for c in node.attrs["select"]]  # a select is by identity; names are the current ones
                 else:
                     raise AnalysisError("sqlsim: the Union branch compiles an unexpected node")
                 q = world.query([_ru[n] for n in order], order_by=[Var("right-order")])
